@@ -106,6 +106,7 @@ mixed compile_object(string file) {
   rec("VO " + file + " " + how);
   switch (how) {
   case "clone": vo_last = clone_object("/wobj"); return vo_last;        // a fresh object
+  case "uclone": vo_last = clone_object("/uobj"); return vo_last;       // C20: a fresh object created by the master
   case "again": return vo_last;                                           // the object already handed out for another name
   case "dead": o = clone_object("/wobj"); destruct(o); return o;          // a destructed object
   case "int": return 7;
